@@ -240,8 +240,9 @@ def main():
         "checks": checks,
         "notes": "All checks: exit 0 = every rule instance holds; exit 1 + 'VIOLATION property=<id> replay=<path>' = a recognised "
                  "construct deviates; exit 2 + 'ANALYSIS-ERROR ...' = anchor vanished / idiom not recognised (never a VIOLATION "
-                 "line). Four genuine defects found by the checkers were repaired in /repo with 'fix:' commits (see "
-                 "known_findings.json).",
+                 "line). Five genuine defects were repaired in /repo with 'fix:' commits; one more (C08, join of multi-segment "
+                 "records) is recorded un-repaired as a known finding: its check prints a KNOWN-FINDING line and exits 0 (see "
+                 "known_findings.json and DESIGN.md section 5).",
         "not_applicable": na,
     }
     with open(os.path.join(VERIF, "MANIFEST.json"), "w") as f:
